@@ -255,3 +255,56 @@ Proof.
   assert (A2: file_of files p = Some k2) by (apply file_of_spec; eauto).
   congruence.
 Qed.
+
+(* ---------- every line table built by AddLine meets the hypotheses of the theorems above ---------- *)
+
+Lemma sorted_snoc lines off :
+  sorted lines -> (lines = [] \/ nth (length lines - 1) lines 0 < off) -> sorted (lines ++ [off]).
+Proof.
+  intros Hs Hl p q Hpq. rewrite app_length in Hpq. simpl in Hpq.
+  destruct (Nat.lt_ge_cases q (length lines)) as [Hq|Hq].
+  - rewrite !app_nth1 by lia. apply Hs. lia.
+  - assert (q = length lines) by lia. subst q.
+    rewrite (app_nth2 lines [off] 0 (n := length lines)) by lia. rewrite Nat.sub_diag. simpl.
+    rewrite app_nth1 by lia.
+    destruct Hl as [->|Hl]; [simpl in Hpq; lia|].
+    destruct (Nat.eq_dec p (length lines - 1)) as [->|Hne]; [exact Hl|].
+    specialize (Hs p (length lines - 1)%nat ltac:(lia)). lia.
+Qed.
+
+Definition table_ok (lines : list Z) : Prop := sorted lines /\ nth 0 lines 1 = 0.
+
+Lemma add_line_ok size lines off : table_ok lines -> table_ok (add_line size lines off).
+Proof.
+  intros [Hs H0]. unfold add_line.
+  destruct ((Nat.eqb (length lines) 0 || (nth (length lines - 1) lines 0 <? off)) && (off <? size)) eqn:E;
+    [|split; assumption].
+  apply andb_prop in E as [E _]. apply orb_prop in E.
+  split.
+  - apply sorted_snoc; [exact Hs|].
+    destruct E as [E|E].
+    + left. apply Nat.eqb_eq in E. destruct lines; [reflexivity|discriminate].
+    + right. apply Z.ltb_lt. exact E.
+  - destruct lines as [|y r]; [simpl in H0; lia|exact H0].
+Qed.
+
+Theorem add_lines_ok size offs : table_ok (add_lines size offs).
+Proof.
+  unfold add_lines.
+  assert (H: table_ok [0]) by (split; [intros p q Hpq; simpl in Hpq; lia | reflexivity]).
+  revert H. generalize [0]. induction offs as [|o r IH]; intros l Hl; simpl; [exact Hl|].
+  apply IH. apply add_line_ok. exact Hl.
+Qed.
+
+(* hence on every table a scanner can build, every offset is reported at the unique line that
+   contains it (no sortedness hypothesis left) *)
+Corollary unpack_correct_reachable size offs off :
+  0 <= off ->
+  let lines := add_lines size offs in
+  exists k, (k < length lines)%nat /\
+    unpack lines off = (Z.of_nat k + 1, off - nth k lines 0 + 1) /\
+    nth k lines 0 <= off /\ (forall q, (k < q < length lines)%nat -> off < nth q lines 0).
+Proof.
+  intros Hoff lines. destruct (add_lines_ok size offs) as [Hs H0].
+  exact (unpack_correct lines off Hs H0 Hoff).
+Qed.
